@@ -8,7 +8,8 @@ DECIDED = ("for every public install root and every path variant on each AArch64
            "table) to MOVZ/MOVK x4 + BR whose built value is, bit for bit, the replacement address (R15.1/R15.2), or to MOVZ w/x0,#v ; RET "
            "for the boolean stub (R15.6); the entry bytes decode to B (imm26 = displacement/4 under a dominating range guard whose failing "
            "edge diverges before any entry write, R15.3) or on macOS ADRP/ADD/BR x16 with page delta and low-12 fields by provenance (R15.4); "
-           "registers written are within x9..x17 plus x0 for the stub (R15.5); all trampoline writes precede the entry write (R15.7)")
+           "registers written are within x9..x17 plus x0 for the stub (R15.5); all trampoline writes precede the entry write (R15.7)"
+           " Every returning path of an install root writes the function's entry (a path that writes nothing leaves the call running what was there before).")
 NOT_DECIDED = "that the processor executes the words as the decode table says; atomicity of the 12-byte entry write"
 
 CALLER_SAVED_TEMPS = {"x%d" % i for i in range(9, 18)}
